@@ -657,6 +657,7 @@ class Explorer:
         self.known = list(known)   # known-finding regions applicable to this harness: dicts with label, region, id
         self.errors = []
         self.unknowns = []
+        self.reverse = False        # explore the False side of every two-way branch first (state-leak detector of the thorough tier)
         self.second_budget = 0      # obligations still to be re-decided by the independent solver binaries (thorough tier)
         self.second_checked = 0
         self.second_disagreements = []
@@ -783,8 +784,8 @@ class Explorer:
                 can_f = (not side) or ro != "unsat"
                 self.model = m     # still a model of the path condition; valid for the side it satisfies
             if can_t and can_f:
-                self.work.append(self.trace + [False])
-                d = True
+                d = not self.reverse
+                self.work.append(self.trace + [not d])
             elif can_t:
                 d = True
             elif can_f:
